@@ -10,6 +10,42 @@ use std::collections::BTreeMap;
 use std::path::{Path, PathBuf};
 
 // ------------------------------------------------------------------------------------------
+// fsync observation: this binary defines `fsync` itself, so every `File::sync_all` of the linked
+// crates lands here; the size the file has at that moment is recorded per path and the real
+// system call is made.  (No hook in /repo is needed; sync_data/fdatasync is not used by the WAL.)
+// ------------------------------------------------------------------------------------------
+static FSYNCED: std::sync::Mutex<Option<std::collections::HashMap<PathBuf, u64>>> = std::sync::Mutex::new(None);
+static FSYNC_CALLS: std::sync::atomic::AtomicU64 = std::sync::atomic::AtomicU64::new(0);
+unsafe extern "C" {
+    fn syscall(num: std::os::raw::c_long, ...) -> std::os::raw::c_long;
+}
+#[cfg(target_arch = "x86_64")]
+const SYS_FSYNC: std::os::raw::c_long = 74;
+#[cfg(target_arch = "aarch64")]
+const SYS_FSYNC: std::os::raw::c_long = 82;
+#[unsafe(no_mangle)]
+pub extern "C" fn fsync(fd: std::os::raw::c_int) -> std::os::raw::c_int {
+    FSYNC_CALLS.fetch_add(1, std::sync::atomic::Ordering::SeqCst);
+    if let Ok(p) = std::fs::read_link(format!("/proc/self/fd/{}", fd)) {
+        if let Ok(m) = std::fs::metadata(&p) {
+            if let Ok(mut g) = FSYNCED.lock() {
+                g.get_or_insert_with(Default::default).insert(p, m.len());
+            }
+        }
+    }
+    let r = unsafe { syscall(SYS_FSYNC, fd as std::os::raw::c_long) };
+    if r < 0 { -1 } else { 0 }
+}
+/// size of the file when it was last fsynced (0 = never)
+fn fsynced_size(p: &Path) -> u64 {
+    let key = std::fs::canonicalize(p).unwrap_or_else(|_| p.to_path_buf());
+    FSYNCED.lock().ok().and_then(|g| g.as_ref().and_then(|m| m.get(&key).copied())).unwrap_or(0)
+}
+fn log_synced(wal: &Path) -> Vec<(u64, u64)> {
+    log_lens(wal).into_iter().map(|(s, _)| (s, fsynced_size(&wal.join(format!("wal_{:08}.log", s))))).collect()
+}
+
+// ------------------------------------------------------------------------------------------
 // Coq term printers
 // ------------------------------------------------------------------------------------------
 fn zs(v: u64) -> String {
@@ -689,6 +725,7 @@ fn wop_short(o: &WOp) -> String {
 }
 struct WalRun {
     vis: Vec<Vec<(u64, u64)>>,
+    syn: Vec<Vec<(u64, u64)>>,
     files: Vec<(u64, Vec<u8>)>,
     meta: Option<Vec<u8>>,
     tmp: bool,
@@ -700,6 +737,7 @@ fn run_wal(dir: &Path, mode: Mode, max: u64, ops: &[WOp]) -> WalRun {
     let cfg = || WalConfig { durability: mode.wal(), max_log_size: max, compression: false };
     let mut wal = Some(WalManager::with_config(&wal_dir, cfg()).expect("open wal"));
     let mut vis = vec![];
+    let mut syn = vec![];
     let mut logged = vec![];
     for o in ops {
         match o {
@@ -719,13 +757,14 @@ fn run_wal(dir: &Path, mode: Mode, max: u64, ops: &[WOp]) -> WalRun {
             }
         }
         vis.push(log_lens(&wal_dir));
+        syn.push(log_synced(&wal_dir));
     }
     drop(wal.take());
     let files = read_logs(&wal_dir);
     let meta = read_meta(&wal_dir);
     let tmp = wal_dir.join("checkpoint.meta.tmp").exists();
     let rec = WalRecovery::new(&wal_dir).recover().map_err(|e| e.to_string());
-    WalRun { vis, files, meta, tmp, rec, logged }
+    WalRun { vis, syn, files, meta, tmp, rec, logged }
 }
 fn rrecs_term(r: &Result<Vec<WalRecord>, String>) -> String {
     match r {
@@ -770,7 +809,7 @@ fn case_wal(prop: &str, sc: &mut Scratch, mode: Mode, max: u64, ops: &[WOp], mut
     let vis_t = coq::list(run.vis.iter().map(|v| zz_term(v)));
     let meta_t = meta_term_of_bytes(run.meta.as_deref());
     let coqt = format!(
-        "chk_wal {} {} {} {} {} {} {} {} && chk_meta {} {}",
+        "chk_wal {} {} {} {} {} {} {} {} && chk_meta {} {} && chk_wal_syn {} {} {} {}",
         tt,
         cfg,
         ops_t,
@@ -780,7 +819,11 @@ fn case_wal(prop: &str, sc: &mut Scratch, mode: Mode, max: u64, ops: &[WOp], mut
         coq::b(run.tmp),
         rrecs_term(&run.rec),
         meta_bytes_term(run.meta.as_deref()),
-        meta_t
+        meta_t,
+        tt,
+        cfg,
+        ops_t,
+        coq::list(run.syn.iter().map(|v| zz_term(v)))
     );
     let rotated = run.files.iter().any(|(s, _)| *s > 0);
     tags.push(mode.tag());
@@ -1309,6 +1352,11 @@ fn run_history(sc: &mut Scratch, mode: Mode, sessions: &[(Vec<Op>, End)]) -> (Ve
                 orig = read_logs(&wal);
             }
             End::Crash(spec) => {
+                // what the process really fsynced of the last file (one crash per history: the directory
+                // is the one every earlier session of this history wrote and closed)
+                if let Some((seq, _)) = log_lens(&wal).last() {
+                    synced_est = fsynced_size(&wal.join(format!("wal_{:08}.log", seq)));
+                }
                 db.wal().expect("wal").flush().expect("flush");
                 let ndir = root.join(format!("db{}", k + 1));
                 copy_dir(&dir, &ndir);
@@ -1806,11 +1854,21 @@ fn case_snap(sc: &mut Scratch, ops: &[Op], mut tags: Vec<String>) -> (Case, Vec<
     let dir = sc.fresh();
     let target = dir.join("saved");
     let mut t = Tabs::default();
+    let target2 = dir.join("saved2");
+    let mut oim = CopyObs::Err("save failed".into());
     let sav = match catch(std::panic::AssertUnwindSafe(|| db.save(&target).map_err(|e| e.to_string()))) {
         Ok(Ok(())) => {
             for (_, b) in read_logs(&target.join("wal")) {
                 t.walk(&b);
             }
+            // open_in_memory on an untouched copy of the saved directory
+            copy_dir(&target, &target2);
+            let tp2 = target2.clone();
+            oim = match catch(move || GrafeoDB::open_in_memory(&tp2).map(|d| observe_copy(&d)).map_err(|e| e.to_string())) {
+                Ok(Ok(o)) => o,
+                Ok(Err(e)) => CopyObs::Err(e),
+                Err(m) => CopyObs::Panic(m),
+            };
             let tp = target.clone();
             match catch(move || GrafeoDB::open(&tp).map(|d| observe_copy(&d)).map_err(|e| e.to_string())) {
                 Ok(Ok(o)) => o,
@@ -1846,7 +1904,7 @@ fn case_snap(sc: &mut Scratch, ops: &[Op], mut tags: Vec<String>) -> (Case, Vec<
         kind: "snap".into(),
         input: format!("[{}]", ops.iter().map(op_short).collect::<Vec<_>>().join("; ")),
         coq: Some(format!(
-            "chk_export_bytes {} {} && chk_snap {} {} {} {} {} {} {} {} {}",
+            "chk_export_bytes {} {} && chk_snap {} {} {} {} {} {} {} {} {} {}",
             snap_term(&sn),
             bts(&b1),
             t.term(),
@@ -1857,10 +1915,11 @@ fn case_snap(sc: &mut Scratch, ops: &[Op], mut tags: Vec<String>) -> (Case, Vec<
             snap_term(&sn),
             copy_term(&imp),
             copy_term(&mem),
-            copy_term(&sav)
+            copy_term(&sav),
+            copy_term(&oim)
         )),
         show: Some(format!("(snapshot_of (fst (run_store {})), dump (fst (run_store {})) latest)", ops_t, ops_t)),
-        imp: format!("source={} snapshot={}n/{}e import={} to_memory={} save+open={}", dump_short(&src_lat), sn.nodes.len(), sn.edges.len(), copy_short(&imp), copy_short(&mem), copy_short(&sav)),
+        imp: format!("source={} snapshot={}n/{}e import={} to_memory={} save+open={} open_in_memory={}", dump_short(&src_lat), sn.nodes.len(), sn.edges.len(), copy_short(&imp), copy_short(&mem), copy_short(&sav), copy_short(&oim)),
         nontrivial: src_lat.nodes.len() + src_lat.edges.len() >= 2,
         tags,
         ..Default::default()
@@ -1876,11 +1935,11 @@ fn case_snap(sc: &mut Scratch, ops: &[Op], mut tags: Vec<String>) -> (Case, Vec<
     } else if before != src_lat {
         c.oracle = Oracle::Fail;
         c.msg = "export/to_memory/save changed the source".into();
-    } else if same(&imp) && same(&mem) && same(&sav) && fresh_ids(&imp) && fresh_ids(&mem) && fresh_ids(&sav) {
+    } else if same(&imp) && same(&mem) && same(&sav) && same(&oim) && fresh_ids(&imp) && fresh_ids(&mem) && fresh_ids(&sav) && fresh_ids(&oim) {
         c.oracle = Oracle::Ok;
     } else {
         c.oracle = Oracle::Fail;
-        c.msg = "a copy (import of the export / to_memory / save+open) differs from the source".into();
+        c.msg = "a copy (import of the export / to_memory / save+open / open_in_memory of the saved directory) differs from the source".into();
         c.kid = Some("C07-K1".into());
         c.kcoq = Some(format!("kc07_1 {}", ops_t));
     }
@@ -2009,13 +2068,14 @@ fn corpus_c05(sc: &mut Scratch, out: &mut Out) {
     // K3: session mutations are not logged
     cases_history("C05", sc, out, Mode::Sync, &[(vec![Op::CreateNode(l(&["A"])), Op::SessNode(l(&["B"]), vec![], false)], End::Close)], t("witness:K3"), false);
     cases_history("C05", sc, out, Mode::Sync, &[(vec![Op::CreateNode(l(&["A"])), Op::SessNode(l(&["Q"]), vec![("k".into(), int(5))], true)], End::Close)], t("witness:K3"), false);
+    cases_history("C05", sc, out, Mode::Sync, &[(vec![Op::CreateNode(l(&["A"])), Op::SessTxNode(l(&["B"]))], End::Close)], t("witness:K3"), false);
     // K4: rotation, then close
     cases_history("C05", sc, out, Mode::Sync, &[(vec![Op::CreateNode(l(&["A"]))], End::Close), (vec![Op::Rotate, Op::CreateNode(l(&["B"]))], End::Close)], t("witness:K4"), false);
 }
 fn corpus_c06(sc: &mut Scratch, out: &mut Out) {
     let t = |x: &str| vec!["corpus".to_string(), x.to_string()];
     // K1: fsynced but never committed
-    cases_history("C06", sc, out, Mode::Sync, &[(vec![Op::CreateNode(l(&["A"])), Op::SetNodeProp(0, "k".into(), int(7)), Op::Sync], End::Crash(CutSpec::Full))], t("witness:K1"), false);
+    cases_history("C06", sc, out, Mode::Sync, &[(vec![Op::CreateNode(l(&["A"])), Op::SetNodeProp(0, "k".into(), int(1)), Op::Sync], End::Crash(CutSpec::Full))], t("witness:K1"), false);
     // K2: torn tail, then more writes and a clean close
     cases_history(
         "C06",
@@ -2032,7 +2092,7 @@ fn corpus_c06(sc: &mut Scratch, out: &mut Out) {
         sc,
         out,
         Mode::NoSync,
-        &[(vec![Op::CreateNode(l(&["A"]))], End::Close), (vec![Op::CreateNode(l(&["B"]))], End::Crash(CutSpec::Full)), (vec![Op::CreateNode(l(&["L2"]))], End::Close)],
+        &[(vec![Op::CreateNode(l(&["A"]))], End::Close), (vec![Op::CreateNode(l(&["B"])), Op::CreateNode(l(&["Person"]))], End::Crash(CutSpec::Full)), (vec![Op::CreateNode(l(&["L2"]))], End::Close)],
         t("witness:K5"),
         false,
     );
